@@ -18,6 +18,10 @@ class Report:
         self.seed = seed
         self.checker_cmd = checker_cmd
         self.t0 = time.time()
+        import sys
+        sys.path.insert(0, ROOT)
+        import registry
+        self.level = registry.CLAIMED.get(prop, {}).get("category", "other")
         self.obligations = []   # dict(id, verdict, backend, seconds, detail, path)
         self.violations = []    # dict(obligation, replay, confirmed)
         self.undecided = []
@@ -77,7 +81,7 @@ class Report:
             self.errors.append("no obligations were generated (vacuity guard)")
             status = 3
         ev = dict(
-            property_id=self.prop, tier=self.tier, seed=self.seed, level="proof",
+            property_id=self.prop, tier=self.tier, seed=self.seed, level=self.level,
             coverage=dict(
                 obligations=n, discharged=discharged, checker_cmd=self.checker_cmd,
                 evaluations=max(1, n + len(self.bounded)), distinct_nontrivial=max(2, n + len(self.bounded)),
